@@ -23,6 +23,11 @@ ip route 10.1.2.0 255.255.255.0 10.2.3.4
 const verifBanner2 = "\n\n\n\x07***\n*** --- SHUTDOWN in 0:02:00 ---\n***\n"
 const verifBanner1 = "\n\n\n\x07***\n*** --- SHUTDOWN in 0:01:00 ---\n***\n"
 
+// the form the device shows when a scheduled reload is aborted (listed in the
+// comment of ios.stripReloadBanner; may arrive asynchronously when the
+// superseded reload of 'reload in' is announced late)
+const verifBannerAborted = "\n\n\n\x07***\n*** --- SHUTDOWN ABORTED ---\n***\n"
+
 func verifIOSScenario(name, hostname string, banner bool, devConf string) *vfsim.Scenario {
 	pre := "Enter Password:<!noecho>\n"
 	if banner {
@@ -73,7 +78,7 @@ func verifIsReloadIn(l string) bool { return l == "reload in 2" || l == "do relo
 // VerifBannerIOS (C15): a clean approve with one asynchronous reload banner
 // of symbolic kind at a symbolic change command and a symbolic offset.
 func VerifBannerIOS() {
-	vf.Assumption("IOS simulator: reload banner forms of the repository's scenario (three empty lines, BEL, ***, message, ***), with or without a fresh prompt behind it, inserted at any byte offset of the echo of one change command; complete reply available when the tool reads")
+	vf.Assumption("IOS simulator: reload banner forms of the repository's scenario (three empty lines, BEL, ***, message, ***; messages SHUTDOWN in 0:02:00, SHUTDOWN in 0:01:00, SHUTDOWN ABORTED), with or without a fresh prompt behind it, inserted at any byte offset of the echo of one change command; complete reply available when the tool reads")
 	changes, _ := verifIOSExpected(verifIOSDevice, verifIOSSpoc)
 	sc := verifIOSScenario("router", "router", true, verifIOSDevice)
 	// clean dialogue: password, enable, "", term len, term width, sh ver, "", sh run = 8 lines,
@@ -84,7 +89,7 @@ func VerifBannerIOS() {
 	if withBanner {
 		cmdIdx = vf.Int("bannerAtChange", 0, len(changes)-1)
 		sc.BannerPos = first + cmdIdx
-		text := vf.IteString(vf.Bool("oneMinuteWarning"), verifBanner1, verifBanner2)
+		text := vf.SelectString(vf.Int("bannerKind", 0, 2), []string{verifBanner2, verifBanner1, verifBannerAborted})
 		sc.BannerOffset = vf.Int("bannerOffset", 0, 45)
 		if vf.Bool("bannerWithPrompt") {
 			// the form with a fresh prompt behind the banner is known in front of
